@@ -1362,7 +1362,7 @@ func (c *c01G) round(h, r int, locked *int) (committed bool) {
 
 // the F1 shape: lock b at r0, polka b again at r0+2 ("update lock round"), restart, delayed polka for
 // another block from round r0+1, then a proposal for that block in a later round.
-func (c *c01G) f1Script() {
+func (c *c01G) f1Script(withCrash bool) {
 	h := 1
 	q := c.n*2/3 + 1
 	o := c.others()
@@ -1400,9 +1400,11 @@ func (c *c01G) f1Script() {
 	for _, sg := range A {
 		c.vote(sg, h, 0, 2, b)
 	}
-	c.g.Emit("crash 0")
-	c.g.Emit("start")
-	// the delayed polka (1, b2)
+	if withCrash {
+		c.g.Emit("crash 0")
+		c.g.Emit("start")
+	}
+	// the delayed polka (1, b2): with the lock round raised to 2 it must NOT unlock (crash-free twin of F1)
 	for _, sg := range o {
 		c.vote(sg, h, 0, 1, b2)
 	}
@@ -1579,10 +1581,10 @@ func c01GenWith(g *Gen, crashy int, die bool) {
 			}
 			c.latePolkaScript()
 			c.crashy = save
-		} else if !die && n == 4 && c.proposer(1, 0) != c.me && g.Intn(25) == 0 {
+		} else if !die && n == 4 && c.proposer(1, 0) != c.me && g.Intn(10) == 0 {
 			save := c.crashy
 			c.crashy = 0
-			c.f1Script()
+			c.f1Script(g.Intn(2) == 0)
 			c.crashy = save
 		} else {
 			h := 1
